@@ -434,7 +434,8 @@ func restDecodeTimeout(timeout string) (time.Duration, error) {
 // Encode timeout as a float in seconds for X-Server-Timeout header.
 func restEncodeTimeout(timeout time.Duration) string {
 	if timeout == 0 {
-		return ""
+		// (not the empty string, which reads as "no timeout")
+		return "0"
 	}
 	return strconv.FormatFloat(timeout.Seconds(), 'f', -1, 64)
 }
